@@ -41,6 +41,7 @@ ROWS = {
  "eq_quick": dict(acts=S("CvEq"), maxnpts=4, pts='"gen", "flat"'),
  "eq_thorough": dict(acts=S("CvEq"), maxnpts=5, degs="DegsT", wts='"none", "gen", "gen2", "const"', pts='"gen", "flat"'),
  "clean_quick": dict(acts=S("CvKnotInsert", "CvDegreeIncrease", "CvClean"), scenario="history", prep=1, depth=3, maxnpts=4, nodesize=1, props=["CleanProps"], wts='"none", "gen"', pts='"gen", "homlin", "bump"'),
+ "wide_clean_quick": dict(acts=S("CvKnotInsert", "CvClean"), scenario="history", prep=1, depth=2, breaks="BreaksW", degs="DegsW", maxnpts=9, nodesize=1, props=["CleanProps"], wts='"none"', pts='"gen"'),
  "clean_thorough": dict(acts=S("CvKnotInsert", "CvDegreeIncrease", "CvClean"), scenario="history", prep=2, depth=4, maxnpts=4, nodesize=1, props=["CleanProps"], wts='"none", "gen", "const"', pts='"gen", "homlin", "bump"'),
  "misc_quick": dict(acts=S("CvCopy", "CvFraction"), maxnpts=4),
  "deriv_quick": dict(acts=S("CvDerivate"), props=["DerivFormulaAgrees"]),
@@ -48,6 +49,7 @@ ROWS = {
  "integ_quick": dict(acts=S("CvIntegrate", "IntegrateFn"), props=["IntegralAgrees"], wts='"none"'),
  "integ_thorough": dict(acts=S("CvIntegrate", "IntegrateFn"), props=["IntegralAgrees"], wts='"none"', degs="Degs4", maxnpts=8, pts='"gen", "unit"'),
  "fitcurve_quick": dict(acts=S("CvFitCurve", "CvFitInRational"), wts='"none"', pts='"pos", "ratlin"', maxnpts=4, omax=4),
+ "fitcurve_gap_quick": dict(acts=S("CvFitCurve"), wts='"none"', pts='"pos"', degs="Degs3", odegs="Degs0", maxnpts=5, omax=3),
  "fitcurve_thorough": dict(acts=S("CvFitCurve", "CvFitInRational"), wts='"none"', pts='"pos", "ratlin"', maxnpts=5, omax=5, degs="DegsT", odegs="DegsT"),
  "fitpoints_quick": dict(acts=S("CvFitPoints", "CvFitFunction"), pts='"pos"', maxnpts=4),
  "fitpoints_thorough": dict(acts=S("CvFitPoints", "CvFitFunction"), pts='"pos"', maxnpts=6, degs="DegsT", wts='"none", "gen", "gen2"'),
